@@ -20,8 +20,9 @@
 (***************************************************************************)
 EXTENDS Integers, Sequences, FiniteSets, TLC, Json
 
-CONSTANTS Ns,           \* arbiter counts tried
-          MaxSigners,   \* longest signer list
+CONSTANTS Ns,           \* arbiter counts tried with every signer list
+          BigNs,        \* large arbiter counts (12, 36) tried with structured signer lists
+          MaxSigners,   \* longest signer list (small counts)
           SingleUseV2   \* TRUE: the v2 checker consults the Tx3 index
 
 VARIABLES n, band, signers, restricted, allX, prog, used, done, log
@@ -61,8 +62,20 @@ Authorised ==
 RECURSIVE Lists(_, _)
 Lists(S, k) == IF k = 0 THEN {<<>>} ELSE LET r == Lists(S, k - 1) IN r \cup {Append(x, y) : x \in {z \in r : Len(z) = k - 1}, y \in S}
 
-Init == /\ n \in Ns /\ band \in {"mid", "high"}
-        /\ signers \in {s \in Lists(0..n, MaxSigners) : Len(s) >= 1}
+\* structured signer lists for large arbiter sets: exactly the threshold, or one short
+BigLists(N, T) ==
+    { [i \in 1..T |-> i - 1],                                 \* the first T arbiters
+      [i \in 1..T |-> N - i],                                 \* the last T arbiters
+      [i \in 1..T |-> N - 1],                                 \* the last arbiter, T times
+      [i \in 1..T |-> 0],                                     \* the first arbiter, T times
+      [i \in 1..T |-> IF i = T THEN N - 1 ELSE N - i],        \* last T-1 distinct, the last one twice
+      [i \in 1..T |-> IF i = T THEN 1 ELSE i - 1],            \* first T-1 distinct, index 1 twice
+      [i \in 1..T |-> IF i = T THEN N ELSE i - 1],            \* one index out of range
+      [i \in 1..(T - 1) |-> i - 1] }                          \* one signer short
+
+Init == /\ n \in Ns \cup BigNs /\ band \in {"mid", "high"}
+        /\ signers \in (IF n \in Ns THEN {s \in Lists(0..n, MaxSigners) : Len(s) >= 1}
+                                   ELSE BigLists(n, Threshold(n, band)))
         /\ restricted \in BOOLEAN /\ allX \in BOOLEAN
         /\ prog \in {"agg", "other", "standard"} /\ used \in BOOLEAN
         /\ done = FALSE /\ log = <<>>
